@@ -2,9 +2,13 @@
 # usage: run_all.sh [tier]   — runs every claimed check of MANIFEST.json in sequence, prints one line per property
 tier=${1:-quick}
 cd /verif
-for id in $(jq -r ".checks[].property_id" MANIFEST.json); do
+for id in ${RUN_ALL_IDS:-$(jq -r ".checks[] | select(.thorough_cmd != null or \"$tier\" == \"quick\") | .property_id" MANIFEST.json)}; do
   t0=$(date +%s)
-  out=$(SYMGO_MAX_WALL_S=${SYMGO_MAX_WALL_S:-280} timeout ${RUN_ALL_TIMEOUT:-900} ./bin/symgo check $id --tier $tier 2>/dev/null)
+  if [ "$tier" = thorough ]; then
+    out=$(timeout ${RUN_ALL_TIMEOUT:-3000} ./bin/symgo check $id --tier $tier 2>/dev/null)
+  else
+    out=$(SYMGO_MAX_WALL_S=${SYMGO_MAX_WALL_S:-280} timeout ${RUN_ALL_TIMEOUT:-900} ./bin/symgo check $id --tier $tier 2>/dev/null)
+  fi
   rc=$?
   t1=$(date +%s)
   echo "RUNALL $id tier=$tier exit=$rc wall=$((t1-t0))s $(echo "$out" | grep -E '^(OK|VIOLATION|INCONCLUSIVE)' | head -2 | tr '\n' ' ' | cut -c1-160) known=$(echo "$out" | grep -c '^KNOWN-FINDING')"
